@@ -54,6 +54,9 @@ def gen_cases(rng, tier):
     for f in ("max", "Min", "mod", "ceil", "floor", "sum", "prod", "log2", "sqrt", "abs", "round", "exp", "sin", "gamma", "multiplicity"):
         for pre in ("lib.", "a.b."):
             texts += [f"{pre}{f}(x, y)", f"{pre}{f}(x) + 1", f"2 * {pre}{f}(y, 3) - x"]
+    # strings that are nothing but one integer literal, beyond what a double holds exactly
+    texts += ["9007199254740993", "18446744073709551615", "1000000000000000000000001", "-9007199254740993", "(9007199254740993)",
+              "9007199254740993 + 0", "123456789012345678901234567890", "4", "-7", "+5"]
     # functions
     fn = ["Max(x, y)", "MAX(x, 2)", "min(x, y) + 1", "CEIL(x / 2)", "ceiling(x / 3)", "Floor(x / 2)", "mod(x, 3)", "MOD(7, y)",
           "Log2(x)", "log2(x) * LOG2(y)", "foo(x, y)", "Foo(y, x)", "foo(x, y) - foo(y, x)", "g(f(x), f(f(y)))", "f(x + 1, y * 2, 3)",
